@@ -1,4 +1,4 @@
-import sys; sys.path.insert(0,'/tmp/fixes'); from edit import rep
+import sys; sys.path.insert(0,'/verif/tools'); from edit import rep
 rep('segno/encoder.py', """            if prev_seg.mode == segment.mode and prev_seg.encoding == segment.encoding:""", """            # Numeric / alphanumeric data is encoded in groups of 3 / 2 characters,
             # the bits can only be concatenated if the previous segment ends with a
             # complete group
